@@ -122,10 +122,13 @@ theorem C19_witness_status_shape_mismatch :
 
 /-! ### status -/
 
-/-- main's mapping: Ok ↦ 0, every code of the Err arm is non-zero, the Err arm writes to stderr and not to stdout; no
-    `process::exit(0)` before the dispatch; the init helpers never write to stdout. -/
+/-- main's mapping: Ok ↦ 0 (a non-zero code, and nothing on stdout, when the interrupted flag is set: signals are
+    outside the table, every row has `was_interrupted = false`); a command that returned Err always reports one of the
+    codes of the Err arm (the translator rejects an Err arm conditioned on the flag), each of them non-zero; the Err arm
+    writes to stderr and not to stdout; no `process::exit(0)` before the dispatch; the init helpers never write to stdout. -/
 theorem exit_code_discipline :
-    Gen.exitOk = 0 ∧ errCodes.all (· != 0) = true ∧ Gen.errArmStdoutSites = 0 ∧ Gen.errArmStderrSites ≥ 1
+    Gen.exitOk = 0 ∧ Gen.exitOkInterrupted.all (· != 0) = true ∧ Gen.okArmStdoutSites = 0
+    ∧ errCodes.all (· != 0) = true ∧ Gen.errArmStdoutSites = 0 ∧ Gen.errArmStderrSites ≥ 1
     ∧ Gen.preDispatchExits.all (fun e => e.2.1 != n!"0") = true
     ∧ Gen.initHelperStdoutSites.all (fun e => e.2 == 0) = true := Part.exit_code_discipline
 
